@@ -17,7 +17,7 @@ import (
 // FDCell describes one tracked cell.
 type FDCell struct {
 	Name    string
-	IsLoad  func(v ssa.Value) bool          // v reads the cell
+	IsLoad  func(v ssa.Value) bool                     // v reads the cell
 	IsStore func(in ssa.Instruction) (ssa.Value, bool) // in writes the cell: returns the stored value
 }
 
